@@ -20,6 +20,7 @@ import (
 	"context"
 	"crypto/sha256"
 	"crypto/x509"
+	"encoding/base64"
 	"encoding/hex"
 	"errors"
 	"net/http"
@@ -183,11 +184,13 @@ func (a *jwtAuthenticator) Execute(ctx heimdall.Context) (*subject.Subject, erro
 
 	token, err := jwt.ParseSigned(jwtAd, supportedAlgorithms())
 	if err != nil {
-		return nil, errorchain.
-			NewWithMessage(heimdall.ErrAuthentication, "failed to parse JWT").
-			WithErrorContext(a).
-			CausedBy(heimdall.ErrArgument).
-			CausedBy(err)
+		ec := errorchain.NewWithMessage(heimdall.ErrAuthentication, "failed to parse JWT").WithErrorContext(a)
+		if !hasJWSCompactForm(jwtAd) {
+			// not a JWT at all: not the kind of credentials this authenticator is responsible for
+			ec = ec.CausedBy(heimdall.ErrArgument)
+		}
+
+		return nil, ec.CausedBy(err)
 	}
 
 	rawClaims, err := a.verifyToken(ctx, token)
@@ -204,6 +207,26 @@ func (a *jwtAuthenticator) Execute(ctx heimdall.Context) (*subject.Subject, erro
 	}
 
 	return sub, nil
+}
+
+// hasJWSCompactForm tells whether value is structurally a signed JWT (three dot separated parts with a
+// JOSE header naming an algorithm), whatever the algorithm is.
+func hasJWSCompactForm(value string) bool {
+	parts := strings.Split(value, ".")
+	if len(parts) != 3 { //nolint:mnd
+		return false
+	}
+
+	rawHeader, err := base64.RawURLEncoding.DecodeString(parts[0])
+	if err != nil {
+		return false
+	}
+
+	var header struct {
+		Alg string `json:"alg"`
+	}
+
+	return json.Unmarshal(rawHeader, &header) == nil && len(header.Alg) != 0
 }
 
 func (a *jwtAuthenticator) WithConfig(config map[string]any) (Authenticator, error) {
